@@ -473,6 +473,19 @@ def oracle(c, impl):
             if impl != " ".join(exp):
                 return f"HighWaterMark: {c['line']} -> {impl}, a lexicographic (timestamp, event id) mark gives {' '.join(exp)}"
             return None
+        if t[0] == "matwm_filter":
+            m = tuple(int(x) for x in t[1].split("."))
+            exp = []
+            for f in (t[3].split("|") if len(t) > 3 else []):
+                if f == "-":
+                    exp.append("skip")
+                    continue
+                rows = [tuple(int(x) for x in r.split(".")) for r in f.split(",")]
+                kept = [str(r[2]) for r in rows if t[2] == "0" or (r[0], r[1]) > m]
+                exp.append("+".join(kept) if kept else "none")
+            if impl != " ".join(exp):
+                return f"WatermarkDeduplicator: {c['line']} -> {impl}; rows strictly above the mark are {' '.join(exp)}"
+            return None
         if t[0] == "mat_sink":
             # the mark of a materialisation must not be below a row it has stored
             frames = [f for f in (t[1].split("|") if len(t) > 1 else []) if f and f != "-"]
@@ -656,18 +669,35 @@ def cases(rng, tier):
         if rng.chance(2, 3):
             frames = sorted(frames, key=lambda f: (f == "-", [tuple(int(x) for x in r.split(".")[:2]) for r in f.split(",")] if f != "-" else []))
         out.append({"kind": "fn_sink", "line": "mat_sink " + "|".join(frames), "show": "MaterializedSink.append " + " | ".join(frames)})
+    # WatermarkDeduplicator::filter, once hooks/C14-watermark-dedup.diff is applied and the probe renamed
+    if fn_probe("matwm_filter 0.0 1 -") not in ("UNKNOWN_PROBE", ""):
+        for i in range(n_fn):
+            m = (rng.below(4), rng.below(5))
+            frames = []
+            k = 0
+            for _ in range(rng.range(1, 3)):
+                if rng.chance(1, 8):
+                    frames.append("-")
+                    continue
+                rows = []
+                for _ in range(rng.range(1, 4)):
+                    k += 1
+                    rows.append(f"{rng.below(5)}.{rng.below(6)}.{k}")
+                frames.append(",".join(rows))
+            out.append({"kind": "fn_wm", "line": f"matwm_filter {m[0]}.{m[1]} {rng.choice('1110')} " + "|".join(frames),
+                        "show": f"WatermarkDeduplicator mark={m} " + " | ".join(frames)})
     # ---- engine level
-    n = 20 if quick else 700
+    n = 50 if quick else 700
     for i in range(n):
         cfg = rng.choice(CFGS)
         out.append(mk_case("history", cfg, gen_history(rng, cfg, rng.range(6, 14))))
-    for i in range(4 if quick else 150):
+    for i in range(10 if quick else 150):
         cfg = rng.choice(CFGS)
         out.append(mk_case("payload_tf", cfg, gen_history(rng, cfg, rng.range(5, 10), tf="P")))
-    for i in range(3 if quick else 100):
+    for i in range(8 if quick else 100):
         cfg = rng.choice(CFGS)
         out.append(mk_case("limit", cfg, gen_history(rng, cfg, rng.range(5, 10), limit=True)))
-    for i in range(3 if quick else 100):
+    for i in range(6 if quick else 100):
         # frozen millisecond clock: ids are ordered by shard number, then sequence
         cfg = rng.choice([c for c in CFGS if c["shards"] > 1])
         ops = [("K", 0) + tuple([5] * 60)]
@@ -679,19 +709,19 @@ def cases(rng, tier):
                 ops.append(("F",))
             ops.append(("H", 1))
         out.append(mk_case("frozen_clock", cfg, ops))
-    for i in range(2 if quick else 60):
+    for i in range(4 if quick else 60):
         # wall clock stepping backwards between STOREs
         cfg = rng.choice(CFGS)
         ops = [("N", 5), ("S", 0, 1, 0), ("S", 1, 2, 0), ("R", 1, gen_query(rng) | {"since": None}), ("N", rng.range(2, 4)),
                ("S", rng.below(3), rng.range(1, 3), 0), ("H", 1), ("N", 9), ("S", 0, 2, 0), ("H", 1)]
         out.append(mk_case("backward_clock", cfg, ops))
-    for i in range(2 if quick else 60):
+    for i in range(4 if quick else 60):
         cfg = rng.choice([c for c in CFGS if c["shards"] == 1])
         cap = cfg["fill_factor"] * cfg["event_per_zone"]
         pre = rng.below(cap)
         ops = [("S", 0, 1, 0) for _ in range(pre)] + [("W", 1, gen_query(rng) | {"ctx": None, "since": None}, cap - pre), ("H", 1), ("S", 0, 1, 0), ("H", 1)]
         out.append(mk_case("flush_window", cfg, ops))
-    for i in range(2 if quick else 60):
+    for i in range(4 if quick else 60):
         cfg = rng.choice(CFGS)
         ops = [("S", rng.below(3), 1, 0), ("R", 1, gen_query(rng) | {"since": None, "where": None, "ctx": None}), ("N", 10)]
         ops += [("S", rng.below(3), 1, 0) for _ in range(rng.range(1, 3))] + [("F",), ("S", 0, 1, 0), ("H", 1), ("H", 1)]
